@@ -940,9 +940,13 @@ func (e *Exec) drain() bool {
 		simrt.Quiesce(20000, 0)
 		return false
 	}
+	jumps := 0
+	if e.opts.MergerIdleRunTimeoutMS > 0 {
+		jumps = 4 // the idle merger may legitimately be what hands the rest down
+	}
 	for round := 0; round < 6; round++ {
 		before := simrt.Steps()
-		simrt.Quiesce(50000, 0)
+		idle := simrt.Quiesce(50000, jumps)
 		if simrt.Steps() > before {
 			e.probe("bg-step-between-ops")
 		}
@@ -957,9 +961,11 @@ func (e *Exec) drain() bool {
 			e.gaugesSettle()
 			return true
 		}
-		e.coll.(interface {
-			NotifyMerger(string, bool) error
-		}).NotifyMerger("", false)
+		if idle && !simrt.OthersEligible() {
+			// Nobody was kicked: the application is not required to notify the
+			// merger for its batches to be persisted.
+			break
+		}
 	}
 	e.probe("drain-incomplete")
 	if e.viol == nil && e.fs.FaultSeen == 0 && !e.fs.FaultsPending() && (e.ll == nil || len(e.ll.faults) == 0) &&
@@ -973,7 +979,7 @@ func (e *Exec) drain() bool {
 		}
 		e.failD("stuck-unpersisted", map[string]string{"symptom": "stuck-unpersisted", "diff": d},
 			"no fault was injected, every background task is idle (merger and persister wait for work) after repeated notifications, yet the lower level still lacks executed batches (it shows prefix %d of %d): %s",
-			e.lb, e.hist.N(), d)
+			e.lb, e.hist.N(), d+"\n"+e.gaugeText()+"\n"+simrt.DumpTasks())
 	}
 	return false
 }
